@@ -186,6 +186,21 @@ func c10Scenarios(tier string) []Scenario {
 					Calls: []CallSpec{{ID: 0, Match: m, CancelAt: -1, After: -1}}, Dgs: d}, "logging")
 			}
 		}
+		// (4e) the production stack: the DHCPv4 client on top of the raw broadcast connection (frames in, frames out);
+		// concurrent callers transmit through the same connection object
+		if !v6 {
+			for _, seq := range dgSequences(alpha2, 2) {
+				d := append([]DgSpec{}, seq...)
+				for i := range d {
+					d[i].At = 1
+				}
+				add(&ClientScenario{V6: false, Raw: true, T: T, Tries: 2, BufCap: 1, CloseAt: -1, Bound: bound,
+					Calls: []CallSpec{{ID: 0, Match: MatchNil, CancelAt: -1, After: -1}, {ID: 1, Match: MatchGood, CancelAt: -1, After: -1}}, Dgs: d}, "raw-conn")
+			}
+			add(&ClientScenario{V6: false, Raw: true, T: T, Tries: 1, BufCap: -1, CloseAt: -1, Bound: 1,
+				Calls: []CallSpec{{ID: 0, Match: MatchNil, CancelAt: -1, After: -1}, {ID: 1, Match: MatchNil, CancelAt: -1, After: -1}, {ID: 2, Match: MatchNil, CancelAt: -1, After: -1}, {ID: 0, Match: MatchNil, CancelAt: -1, After: -1}},
+				Dgs:   []DgSpec{{At: 1, Kind: DgGood, ID: 0}, {At: 1, Kind: DgGood, ID: 1}, {At: 1, Kind: DgGood, ID: 2}}}, "raw-conn")
+		}
 		// (5) many callers: 4 (quick) / 5 (thorough) concurrent callers, two of them colliding
 		{
 			nc := 4
